@@ -51,6 +51,9 @@ for f in [f"{W}/verif/harness/Cargo.toml", f"{W}/verif/harness-wasm/Cargo.toml",
         s = open(f).read().replace('path = "/repo/', f'path = "{W}/repo/')
         open(f, "w").write(s)
 sh(f"cp {W}/repo/Cargo.lock {W}/verif/harness/Cargo.lock", check=False)
+pj = f"{W}/verif/tools/props.json"
+if os.path.exists(pj):
+    open(pj, "w").write(open(pj).read().replace('"/verif/', f'"{W}/verif/'))
 env = dict(os.environ, VERIF_REPO=f"{W}/repo")
 if tests:
     r = subprocess.run("cargo test --workspace --no-fail-fast --offline 2>&1 | grep -E '^test result|FAILED|failed|panicked' | awk '{p+=$4; f+=$6} END {print \"baseline tests: passed\",p,\"failed\",f}'",
